@@ -2242,6 +2242,18 @@ Proof.
   rewrite dict_update_skeys. cbn [bind]. apply IH. exact Ht.
 Qed.
 
+(* the dict of the source and the model's fields_of_mro have the same names in the same order *)
+Lemma fields_of_mro_names g mro :
+  fields_of_mro g mro = mro_fold (fun _ nm => snd nm) g mro /\
+  map fst (v_fields_of_mro g mro) = map fst (fields_of_mro g mro).
+Proof.
+  split; [apply fields_of_mro_fold|]. rewrite fields_of_mro_fold.
+  assert (H : map (fun p : pystr * pyval => (fst p, tt)) (v_fields_of_mro g mro) =
+              map (fun p : pystr * member => (fst p, tt)) (mro_fold (fun _ nm => snd nm) g mro)).
+  { unfold v_fields_of_mro. rewrite (mro_fold_map (fun _ : pyval => tt)), (mro_fold_map (fun _ : member => tt)). reflexivity. }
+  apply (f_equal (map fst)) in H. rewrite !map_map in H. exact H.
+Qed.
+
 (* ================================================================== StructMeta.__new__, statement by statement *)
 
 (* The generator emits StructMeta.__new__ as the composition of one definition per top-level statement
@@ -2499,6 +2511,7 @@ Print Assumptions build_members_two_phases.
 Print Assumptions get_all_fields_by_name_src.
 Print Assumptions fields_of_mro_fold.
 Print Assumptions mro_fold_map.
+Print Assumptions fields_of_mro_names.
 Print Assumptions instantiate_frame_src.
 Print Assumptions new_field_names_src.
 Print Assumptions new_optional_check_src.
